@@ -155,6 +155,58 @@ Theorem C13_decryptor_recovers_plaintext :
     = captured_plain evs.
 Proof. exact decryptor_recovers_plaintext. Qed.
 
+(** The decryptor's lists: materials are tried in order and, for each, the keys in order.
+    Combinations tried before the right one do not matter as long as they reject the PDU and
+    leave the cache as it is ([combo_rejects]); the first accepting combination gives the result.
+    Arbitrary decryptor state, arbitrary positions in the lists. *)
+Theorem C13_decryptor_material_list :
+  forall E (ds : dstate) (pdu : bytes) (ms1 : list material) (mat : material) (ms2 : list material)
+         (ks1 : list bytes) (key : bytes) (ks2 : list bytes) (mgrs' : list (bytes * mgr)) (p : bytes),
+    mats ds = ms1 ++ mat :: ms2 -> keys ds = ks1 ++ key :: ks2 ->
+    (N.eqb (nth 1 pdu 0%N) 0 && N.eqb (N.land (nth 0 pdu 0%N) 3) 1)%bool = false ->
+    Forall (fun m => Forall (combo_rejects E (managers ds) pdu m) (keys ds)) ms1 ->
+    Forall (combo_rejects E (managers ds) pdu mat) ks1 ->
+    try_key E (managers ds) key mat pdu = (mgrs', Ok (Some p)) ->
+    attempt E ds pdu = ({| keys := keys ds; mats := mats ds; managers := mgrs' |}, Ok (Some p)).
+Proof. exact attempt_material_list. Qed.
+
+(** Captures made of several sessions (different keys and/or SKD/IV) on one decryptor: a
+    captured PDU of ANY session whose key and material the decryptor holds, anywhere in its
+    lists, is recovered exactly — from an arbitrary decryptor state (whatever other sessions
+    left in the cache), with [rx] the manager the decryptor uses for that key (the cached one,
+    else a fresh one built from this material), in step with the sender within the tolerance,
+    and the combinations tried before rejecting the PDU (MAC condition). Applies to every PDU
+    of every session in turn; successive and interleaved sessions alike. *)
+Theorem C13_decryptor_recovers_multi_session_pdu :
+  forall E, (forall k b, length (E k b) = 16) ->
+  forall (ds : dstate) (ms1 : list material) (mat : material) (ms2 : list material)
+         (ks1 : list bytes) (key : bytes) (ks2 : list bytes) (tx rx : mgr) (d : dir) (h l : N) (rest c : bytes),
+    mats ds = ms1 ++ mat :: ms2 -> keys ds = ks1 ++ key :: ks2 ->
+    match lookup key (managers ds) with Some m => Ok m | None => mk_manager E key mat end = Ok rx ->
+    sk tx = sk rx -> iv tx = iv rx -> (cnt rx d <= cnt tx d)%N ->
+    encrypt E tx (h :: l :: rest) d = Ok c ->
+    let a := air_pdu c in
+    let gap := N.to_nat (cnt tx d - cnt rx d) in
+    gap < 2 -> rejects_from E rx d (cnt rx d) gap a = true ->
+    match d with M2S => true | S2M => rejects_from E rx M2S (cnt rx M2S) 2 a end = true ->
+    Forall (fun m => Forall (combo_rejects E (managers ds) a m) (keys ds)) ms1 ->
+    Forall (combo_rejects E (managers ds) a mat) ks1 ->
+    attempt E ds a
+    = ({| keys := keys ds; mats := mats ds;
+          managers := store key (incr (set_cnt rx d (cnt tx d)) d) (managers ds) |},
+       Ok (Some (h :: l :: rest))).
+Proof. exact decryptor_multi_session_pdu. Qed.
+
+(** Full statement for two successive sessions under the SAME key with fresh SKD/IV
+    (reconnection of bonded devices): REFUTED by the faithful model — the manager cache is keyed
+    by the key alone, the first session's manager is used for every material (known finding
+    decryptor-cache-keyed-by-key-only; the premise [lookup key ... = Ok rx] with [rx] in step
+    of the theorem above is what fails). *)
+Definition C13_decryptor_same_key_sessions_statement : Prop := same_key_sessions_statement.
+
+Theorem C13_decryptor_same_key_sessions_refuted : ~ C13_decryptor_same_key_sessions_statement.
+Proof. exact same_key_sessions_refuted. Qed.
+
 Theorem C13_decryptor_ignores_empty_pdu :
   forall E (ds : dstate) (h : N) (rest : bytes),
     mats ds <> [] -> keys ds <> [] -> N.land h 3 = 1%N ->
